@@ -630,3 +630,60 @@ Proof.
   destruct (RI.eqb_spec 0 0); [|lra]. destruct (RI.ltb_spec 14 (-999 / 10)); [lra|].
   destruct (RI.ltb_spec 1 1); [lra|]. cbn [fst]. lra.
 Qed.
+
+(* ==================================================================== *)
+(* 10. day lengths                                                       *)
+
+Lemma limit1_range (v : R) : -1 <= limit1 v <= 1.
+Proof.
+  unfold limit1. rsimp. destruct (RI.ltb_spec 1 v); [lra|].
+  match goal with |- context [RI.ltb v ?m] => destruct (RI.ltb_spec v m) end; lra.
+Qed.
+
+(* every day length lies in [0, 24] h as soon as the oracle value lies in [-pi/2, pi/2] ... *)
+Lemma dl_hours_range (pi v : R) : 0 < pi -> - (pi / 2) <= v <= pi / 2 -> 0 <= dl_hours pi v <= 24.
+Proof.
+  intros Hp Hv. unfold dl_hours. rsimp. unfold two. rsimp.
+  split.
+  - unfold Rdiv. apply Rmult_le_pos; [nra|]. apply Rlt_le, Rinv_0_lt_compat. exact Hp.
+  - apply (Rmult_le_reg_r pi); [exact Hp|]. unfold Rdiv. rewrite Rmult_assoc, Rinv_l by lra. nra.
+Qed.
+
+(* ... which the true arcsine delivers for EVERY argument the model passes (the clamp comes after the shift), for every
+   latitude and day: 0 <= DL, DLE, DLP <= 24 *)
+Lemma daylengths_range_lemma (sinld cosld s8 s6 : R) :
+  let a := dl_args {| dl_sinld := sinld; dl_cosld := cosld; dl_s8 := s8; dl_s6 := s6; dl_pi := PI; dl_v0 := 0; dl_v1 := 0; dl_v2 := 0 |} in
+  let x := {| dl_sinld := sinld; dl_cosld := cosld; dl_s8 := s8; dl_s6 := s6; dl_pi := PI;
+              dl_v0 := asin (fst (fst a)); dl_v1 := asin (snd (fst a)); dl_v2 := asin (snd a) |} in
+  (-1 <= fst (fst a) <= 1 /\ -1 <= snd (fst a) <= 1 /\ -1 <= snd a <= 1) /\
+  (0 <= fst (fst (daylengths x)) <= 24 /\ 0 <= snd (fst (daylengths x)) <= 24 /\ 0 <= snd (daylengths x) <= 24).
+Proof.
+  cbv zeta. unfold dl_args, daylengths. cbn [fst snd dl_sinld dl_cosld dl_s8 dl_s6 dl_pi dl_v0 dl_v1 dl_v2].
+  split; [repeat split; apply limit1_range|].
+  repeat split; apply dl_hours_range; try apply PI_RGT_0; try apply asin_bound.
+Qed.
+
+(* ==================================================================== *)
+(* 11. season means                                                      *)
+
+(* the mean of per-day factors in [0,1] over the days between sowing and harvest is in [0,1], for every positive number
+   of days and at most that many summed days (the crop does not emerge on the sowing day itself) *)
+Lemma season_mean_range_lemma (vs : list R) (saat ernte : Z) :
+  Forall (fun v => 0 <= v <= 1) vs -> (saat < ernte)%Z -> (Z.of_nat (length vs) <= ernte - saat)%Z ->
+  0 <= season_mean (Rsum vs) saat ernte <= 1.
+Proof.
+  intros Hv Hd Hl. unfold season_mean. rsimp.
+  assert (Hs : 0 <= Rsum vs <= INR (length vs)).
+  { clear Hl. induction Hv as [|v l Hv0 _ IH]; [cbn; lra|]. cbn [Rsum length]. rewrite S_INR. lra. }
+  assert (Hn : 0 < IZR (ernte - saat)) by (apply (IZR_lt 0); lia).
+  assert (Hle : INR (length vs) <= IZR (ernte - saat)) by (rewrite INR_IZR_INZ; apply IZR_le; exact Hl).
+  split.
+  - unfold Rdiv. apply Rmult_le_pos; [lra|]. apply Rlt_le, Rinv_0_lt_compat. exact Hn.
+  - apply (Rmult_le_reg_r (IZR (ernte - saat))); [exact Hn|]. unfold Rdiv. rewrite Rmult_assoc, Rinv_l by lra. lra.
+Qed.
+
+(* dividing by a difference of day-of-year numbers instead is wrong for crops that grow across the turn of the year *)
+Lemma season_mean_doy_witness :
+  let sow_doy := 278%Z in let harvest_doy := 213%Z in
+  @div R RNum 150 (ofZ (harvest_doy - sow_doy)) < 0.
+Proof. cbv zeta. rsimp. change (278)%Z with 278%Z. replace (IZR (213 - 278)) with (-65) by (rewrite minus_IZR; lra). lra. Qed.
